@@ -13,7 +13,7 @@ open Vy PyAst
 def junkNames : List String :=
   ["condition", "lhs", "rhs", "third", "top", "temp", "_", "arguments", "arguments_A", "arguments_B", "stack_copy",
    "function_A", "function_B", "function_C", "res", "res_A", "res_B", "ret", "this", "parameters", "temp_list", "f",
-   "list_item", "arg_stack", "self", "arity", "s", "_lambda_"]
+   "list_item", "arg_stack", "self", "arity", "s", "_lambda_", "VAR_"]
 
 def popStackE (k : Int) : PyExpr := .call (.name "pop") [.name "stack", .cint k, .name "ctx"] []
 def appendCall (f : String) (args : List PyExpr) : PyStmt :=
@@ -83,7 +83,7 @@ def fragTok (tbl : List Gen.Entry) (t : Token) : Bool :=
 
 mutual
 /-- the fragment: literals, first-order elements, the core templates, variables, `if`, `for`, `while`, break /
-    continue, lambdas (plain, map, filter, sort) with the call element -/
+    continue, lambdas (plain, map, filter, sort) with the call element, list literals, named functions -/
 def fragS (tbl : List Gen.Entry) : Structure → Bool
   | .generic t => fragTok tbl t
   | .brk _ => true
@@ -95,6 +95,8 @@ def fragS (tbl : List Gen.Entry) : Structure → Bool
   | .lam _ body => fragL tbl body
   | .lamOp k body => fragL tbl body && fragTok tbl ⟨.general, lamOpKey k⟩
   | .listS items => fragLL tbl items
+  | .fnCall _ => true
+  | .fnDef _ _ body => fragL tbl body
   | _ => false
 def fragL (tbl : List Gen.Entry) : List Structure → Bool
   | [] => true
